@@ -91,6 +91,8 @@ def main():
             meta["id"] = name
             meta["author"] = "independent sub-agent asked for a behaviour-preserving change (all 20 property texts given), full test suite passing"
             meta["checks"] = {"run": sorted(dd), "alarms": alarms}
+            if os.path.exists(os.path.join(d, "base")):
+                meta["applies_to_commit"] = open(os.path.join(d, "base")).read().strip()
             json.dump(meta, open(os.path.join(o, "meta.json"), "w"), indent=1)
             brow.append((name, meta.get("summary", ""), alarms))
     json.dump({"seeded": [{"id": a, "summary": b, "needs": c, "caught_by": d} for a, b, c, d in rows],
